@@ -22,6 +22,19 @@
 #include <unordered_map>
 #include <list>
 
+#ifdef EVENTPP_VERIF
+// Verification hook (compiled in only with -DEVENTPP_VERIF): a marker at a point where shared state
+// is about to be read without the protecting mutex, so that a controlled scheduler can preempt there.
+namespace eventpp { namespace verif_ {
+using PointFunc = void (*)(const char *);
+inline PointFunc & pointHook() { static PointFunc hook = nullptr; return hook; }
+inline void point(const char * tag) { if(pointHook() != nullptr) pointHook()(tag); }
+} }
+#define EVENTPP_VERIF_POINT(tag) ::eventpp::verif_::point(tag)
+#else
+#define EVENTPP_VERIF_POINT(tag) ((void)0)
+#endif
+
 namespace eventpp {
 
 struct TagHomo {};
